@@ -32,7 +32,7 @@ CHECKS = {
  'C09': ('independent walker on written OPT records; reference-encoded third-party EDNS messages on the read side; hand-assembled RFC capture; thorough adds coverage-guided libFuzzer+ASan tapes that drive the generators through the same oracle',
          'Exploration: write side tuples (rcode, version, udp, options, other records) and a full read-side sweep of 256 extended x 16 header rcodes, all versions, OPT at every position.',
          'Reference encoder layout is anchored by a hand-assembled capture.'),
- 'C10': ('declarative RFC schema table + independent encoder: parse side field equality, write side byte equality, structural rejections',
+ 'C10': ('declarative RFC schema table + independent encoder: parse side field equality, write side byte equality, structural rejections; thorough adds coverage-guided libFuzzer+ASan tapes that drive the generators through the same oracle',
          'Exploration: hundreds (quick) to tens of thousands (thorough) of boundary-biased tuples per type for all 40 types; rejection families; dnspython vectors.',
          'The ~40-row schema table (DESIGN.md appendix A) is trusted.'),
  'C11': ('parse -> re-serialise (plain and compressed) -> parse, compared in the model domain, over foreign encodings; thorough adds a coverage-guided libFuzzer+ASan target through the same oracle',
